@@ -33,20 +33,54 @@ class AnyListOf(C.ExtT):
         return path.alloc(AnyList(self.t, n))
 
 
+def _freeze(ex, v):
+    """self-contained description of a freshly created element (its fields are fresh symbols at this point), so
+    that a counter-model can be turned into the real elements the path met -- see AnyList.ext_model"""
+    from .values import Obj, Ref
+
+    if isinstance(v, Ref):
+        o = ex.obj(v)
+        if isinstance(o, Obj) and o.model is not None:
+            return {'__frozen__': o.model.name, 'fields': {n: _freeze(ex, x) for n, x in o.fields.items()}}
+        return None
+    if isinstance(v, tuple):
+        return tuple(_freeze(ex, x) for x in v)
+    return v
+
+
 class AnyList(ExtObj):
-    def __init__(self, elem_t, n):
+    def __init__(self, elem_t, n, made=None):
         self.elem_t = elem_t
         self.n = n  # Sym int | python int
+        # elements handed out by iteration along this path, in order (shared with the snapshots of this object:
+        # the pre-state snapshot is what a counter-model is read from)
+        self.made = made if made is not None else []
 
     def clone(self):
-        return AnyList(self.elem_t, self.n)
+        return AnyList(self.elem_t, self.n, self.made)
 
     def __repr__(self):
         return f'AnyList({self.elem_t!r}, len={self.n})'
 
-    def _elem(self, ex, hint):
+    def _elem(self, ex, hint, record=False):
         ex.abstraction_used = True
-        return ex.cfg.fresh(ex, self.elem_t, hint)
+        e = ex.cfg.fresh(ex, self.elem_t, hint)
+        if record:
+            self.made.append(_freeze(ex, e))
+        return e
+
+    def ext_model(self, conc):
+        """replay: the list of the elements this path iterated over, under the counter-model (`conc` concretises
+        a symbol).  The native run then walks a real list that starts like the symbolic walk did."""
+
+        def thaw(d):
+            if isinstance(d, dict) and '__frozen__' in d:
+                return {'__obj__': d['__frozen__'], 'fields': {n: thaw(x) for n, x in d['fields'].items()}}
+            if isinstance(d, tuple):
+                return tuple(thaw(x) for x in d)
+            return conc(d)
+
+        return {'__list__': [thaw(d) for d in self.made], 'flavor': 'list'}
 
     def ext_truth(self, ex, ref):
         return ex.compare_op(ast.Gt(), self.n, 0)
@@ -76,6 +110,10 @@ class AnyList(ExtObj):
         from . import models as M
 
         i = M.plain(i)
+        if ex.spec_mode and M.is_intlike(ex, i):
+            # ghost code (indexing is total there): the i-th answer of an arbitrary environment; recorded like the
+            # elements of an iteration so that a replay hands out the same answers in the same order
+            return ex.obj(ref)._elem(ex, 'elem', record=True)
         if not M.is_intlike(ex, i):
             raise Unsupported('slice / non-integer index into a list of objects of symbolic length')
         n = zint(self.n)
@@ -96,7 +134,7 @@ class AnyList(ExtObj):
             return ex.compare_op(ast.Lt(), ex.lookup(itname), ex.obj(ref).n)
 
         def pre_body():
-            ex.assign(s.target, me._elem(ex, 'elem'))
+            ex.assign(s.target, ex.obj(ref)._elem(ex, 'elem', record=True))
 
         def stepf():
             ex.store_name(itname, ex.binop(ast.Add(), ex.lookup(itname), 1))
